@@ -353,9 +353,21 @@ func prepareExpect(p Pair, pre *Pre) (vop string, e *expect, err error) {
 		if f[1] == "f" {
 			m0.Rebuilding = true
 		}
+	case "CloneInfo":
+		if m0.CloneOf == "" {
+			return bad()
+		}
+		vop = fmt.Sprintf("CloneInfo:%s:%d", m0.CloneOf, pre.CloneRev)
 	}
 	m1 := m0.Clone()
 	switch f[0] {
+	case "CloneInfo":
+		// the head is rewired on top of the copied snapshot: the copied files become the chain, the volume reads the
+		// snapshot's image, the counter is the one the source recorded for the snapshot
+		m1.Chain, m1.Orphans = m1.Orphans, nil
+		m1.Live = append([]uint8(nil), m1.Chain[len(m1.Chain)-1].Img...)
+		m1.Rev = pre.CloneRev
+		m1.CloneOf = ""
 	case "Open", "Close", "Reload", "Recreate":
 	case "Rm", "Replace":
 		m1.Remove(atoi(f[1]))
@@ -420,7 +432,7 @@ func (x *jobCtx) finding(kind string, k int, errno string, v *verdict, what stri
 		}
 		sig = fmt.Sprintf("crash:%s:after:%s:%s", oc, after, v.oracle)
 	case "fail":
-		if callSiteOracle[v.oracle] {
+		if callSiteOracle[v.oracle] || (oc == "UpdateCloneInfo" && v.oracle == "revision-counter-old") {
 			// by-the-letter classes that cannot be repaired by a small patch: the signature names the call site, not
 			// every ordinal and errno at which it shows
 			sig = fmt.Sprintf("fail:%s:%s:%s", oc, x.ref.calls[k].class(x.oldHead()), v.oracle)
@@ -520,6 +532,14 @@ func RunJob(job *Job, verbose bool) (res *Result) {
 		e.chain0, e.chain1 = x.pre.Chain, ref.rep.ChainAfter
 	case "Close":
 		e.chain0, e.chain1 = ref.rep.ChainBefore, ref.rep.ChainBefore
+	case "CloneInfo":
+		// the process that rewired the head cannot list its chain before the reload that follows (its in-memory tables
+		// predate the copied files): the expected chain is the head on top of the copied snapshots, newest first
+		e.chain0 = ref.rep.ChainBefore
+		e.chain1 = append([]string{}, ref.rep.ChainBefore[:1]...)
+		for i := len(e.m1.Chain) - 1; i >= 0; i-- {
+			e.chain1 = append(e.chain1, ea.Disk(e.m1.Chain[i].Name))
+		}
 	default:
 		e.chain0, e.chain1 = ref.rep.ChainBefore, ref.rep.ChainAfter
 	}
